@@ -55,7 +55,8 @@ type specInst struct {
 }
 
 // presRel: cur[r] == old[r] for r <= alloc; with except != "" element-wise: cur[r][j] == old[r][j] unless except(r!, j!)
-type presRel struct{ key, cur, old, alloc, reach, except, etype string }
+// inside != "": the value of cur[r][j] where except(r!, j!) holds (copy: the source element)
+type presRel struct{ key, cur, old, alloc, reach, except, etype, inside string }
 
 func newCtx(prog *Program, cs *ContractSet, pkg *types.Package, fmode string) *Ctx {
 	return &Ctx{prog: prog, cs: cs, pkg: pkg, fmode: fmode,
